@@ -266,12 +266,13 @@ class Fault:
 class Server:
     """Listens on 127.0.0.1:<ephemeral>; every accepted connection runs `behaviour(conn)` in its own thread."""
 
-    def __init__(self, behaviour, faults=(), segment=0, io_timeout=3.0, stall_limit=6.0, backlog=128, bind_addr='127.0.0.1'):
+    def __init__(self, behaviour, faults=(), segment=0, io_timeout=3.0, stall_limit=6.0, backlog=128, bind_addr='127.0.0.1', max_accept=None):
         self.behaviour, self.faults, self.segment = behaviour, list(faults), segment
         self.io_timeout, self.stall_limit = io_timeout, stall_limit
         self.log, self.rx_raw = [], []
         self.t0 = time.time()
         self.nconn = 0
+        self.max_accept = max_accept     # stop listening after this many connections: every later connection attempt is refused
         self.send_time = 0.0
         self.phases = {}        # conn idx -> phase label set by the behaviour
         self.lock = threading.Lock()
@@ -307,11 +308,19 @@ class Server:
             with self.lock:
                 idx = self.nconn
                 self.nconn += 1
+            if self.max_accept is not None and self.nconn >= self.max_accept:
+                try:
+                    self.ls.close()
+                except OSError:
+                    pass
+                self.stop_accepting = True
             c = Conn(s, idx, self)
             c.log('accept')
             t = threading.Thread(target=self.run_conn, args=(c,), daemon=True)
             self.threads.append(t)
             t.start()
+            if getattr(self, 'stop_accepting', False):
+                break
 
     def run_conn(self, c):
         try:
